@@ -195,6 +195,24 @@ func (s Set) Intersect(o Set) Set {
 	return n
 }
 
+// IntersectLen is len(s.Intersect(o)) without allocating.
+func (s Set) IntersectLen(o Set) int {
+	n, i, j := 0, 0, 0
+	for i < len(s) && j < len(o) {
+		switch {
+		case s[i] < o[j]:
+			i++
+		case s[i] > o[j]:
+			j++
+		default:
+			n++
+			i++
+			j++
+		}
+	}
+	return n
+}
+
 func (s Set) Equal(o Set) bool {
 	if len(s) != len(o) {
 		return false
